@@ -5,24 +5,24 @@
   hypotheses; the literal ranges of `[Difficulty]` (`0.4 < 3.6`, `0.5 < 8`) are evaluated on the actual literals.
 -/
 import RosuModel.Props.C11
-import RosuModel.Lemmas.FloatModelOrder
+import RosuModel.Lemmas.FloatModelCompare
 namespace Rosu.C11
 open Rosu
 
 /-! ### for every scalar with IEEE comparisons -/
 
 section Generic
-variable {α : Type} [Scalar α] [FM.IeeeOrd α]
+variable {α : Type} [Scalar α] [FMO.IeeeOrd α]
 
 /-- `clamp_within` with `hirr`, `hasym` discharged. -/
 theorem clamp_within_ieee (x lo hi : α) (hlohi : Scalar.lt lo hi = true) :
     Scalar.lt (Scalar.clamp x lo hi) lo = false ∧ Scalar.lt hi (Scalar.clamp x lo hi) = false :=
-  clamp_within x lo hi FM.lt_irrefl FM.lt_asymm hlohi
+  clamp_within x lo hi FMO.lt_irrefl FMO.lt_asymm hlohi
 
 /-- `max_not_before` with `hirr`, `hasym` discharged. -/
 theorem max_not_before_ieee (s e : α) (hs : Scalar.isNaN s = false) :
     Scalar.lt (Scalar.max s e) s = false :=
-  max_not_before s e FM.lt_irrefl FM.lt_asymm hs
+  max_not_before s e FMO.lt_irrefl FMO.lt_asymm hs
 
 end Generic
 
@@ -55,19 +55,19 @@ theorem slider_tick_rate_within_float (x : Float) :
 /-- … in the ordinary sense for the value of an accepted record (`floatParse` never returns a NaN). -/
 theorem slider_multiplier_between_float (v : Str) (x : Float) (h : floatParse v = some x) :
     Scalar.le (0.4 : Float) (Scalar.clamp x 0.4 3.6) = true ∧ Scalar.le (Scalar.clamp x 0.4 3.6) (3.6 : Float) = true :=
-  FM.clamp_between x 0.4 3.6 (floatParse_not_nan v x h) (by decide +kernel) (by decide +kernel) (by decide +kernel)
+  FMO.clamp_between x 0.4 3.6 (floatParse_not_nan v x h) (by decide +kernel) (by decide +kernel) (by decide +kernel)
 
 theorem slider_tick_rate_between_float (v : Str) (x : Float) (h : floatParse v = some x) :
     Scalar.le (0.5 : Float) (Scalar.clamp x 0.5 8) = true ∧ Scalar.le (Scalar.clamp x 0.5 8) (8 : Float) = true :=
-  FM.clamp_between x 0.5 8 (floatParse_not_nan v x h) (by decide +kernel) (by decide +kernel) (by decide +kernel)
+  FMO.clamp_between x 0.5 8 (floatParse_not_nan v x h) (by decide +kernel) (by decide +kernel) (by decide +kernel)
 
 /-- **break_never_negative** for IEEE doubles: the break appended for an accepted record does not end before it starts,
 in the ordinary sense (`start <= end`), and neither time is NaN. -/
 theorem break_never_negative_float (s e : Str) (sv ev : Float)
     (hs : floatParse s = some sv) (he : floatParse e = some ev) :
     Scalar.le sv (Scalar.max sv ev) = true ∧ Scalar.isNaN (Scalar.max sv ev) = false :=
-  ⟨FM.le_max_left sv ev (floatParse_not_nan s sv hs) (floatParse_not_nan e ev he),
-   FM.max_not_nan_right sv ev (floatParse_not_nan e ev he)⟩
+  ⟨FMO.le_max_left sv ev (floatParse_not_nan s sv hs) (floatParse_not_nan e ev he),
+   FMO.max_not_nan_right sv ev (floatParse_not_nan e ev he)⟩
 
 /-! ### non-vacuity on actual doubles -/
 
